@@ -527,6 +527,17 @@ def _run(ctx):
         for (b, op, it, v) in common.storage_sites(P, f, writes=False):
             if it == ALLOW:
                 readers_.append((f, b, op, v))
+    removes = [w for w in writers if w[2] == "remove"]
+    writers = [w for w in writers if w[2] != "remove"]
+    for (rf, rb, rop, rvv) in removes:
+        # taking a denom off the list is safe only while no registered pair uses it (else a later re-registration would be taken
+        # for a first registration and skip the walk): the removal must sit behind a complete scan of the registry
+        okr, why = removal_behind_scan(ctx, rf, rb, rvv)
+        if okr:
+            r4.site("allow-list removal in %s only after a complete registry scan found no pair using the denom" % rf.path)
+        else:
+            r4.fail("C17.R4:removal:%s" % rf.path, rf.path, common.span_of_block_term(rf, rb),
+                    "an allow-list entry is removed although a registered pair may still use the denom (%s): a later re-registration would skip the walk over its pairs" % why)
     if len(writers) != 1:
         r4.fail("C17.R4:writers", "-", "-", "allow-list is written at %d sites, expected one" % len(writers))
     else:
@@ -558,6 +569,10 @@ def _run(ctx):
         okq = False
         for f, b, v in qn:
             k = set(ctx.roots(v[4][2]))
+            m_ = re.search(r"Result<([\w:]+),", f.body.locals[0]["ty"])
+            adt_ = P.adts.get(m_.group(1)) if m_ else None
+            if adt_ is None or adt_.get("kind") != "struct" or "decimals" not in {x_["name"] for x_ in adt_["variants"][0]["fields"]}:
+                continue        # not the query (e.g. the removal handler testing `has(..)`)
             if len(k) == 1 and re.match(r"^P:%s#\d+$" % re.escape(f.path), list(k)[0]):
                 okq = True
                 r4.site("%s reads ALLOW_NATIVE_TOKENS[denom.as_bytes()]" % f.path)
@@ -687,6 +702,69 @@ def _run(ctx):
             else:
                 r5.site("record saved after the loop over both assets")
     ctx.assumptions.append("'never diverge over any history' additionally uses: records are created consistent (C16.R5/R6), messages are delivered atomically (platform), and only the factory can update a pair (C14.R6)")
+
+
+def removal_behind_scan(ctx, rf, rb, rvv):
+    """The `ALLOW.remove(storage, denom)` at block rb of rf is reached only when `scan(storage, denom)?` answered false, where
+    scan returns Ok(true) as soon as some registered pair has a native asset with that denom — for ALL pairs (unbounded
+    range, no adaptor) and BOTH positions (plain iteration of asset_infos)."""
+    P = ctx.P
+    key = set(ctx.roots(rvv[4][2]))
+    if len(key) != 1 or not re.match(r"^P:%s#\d+$" % re.escape(rf.path), list(key)[0]):
+        return False, "removed key is not a parameter of the handler"
+    DEN = list(key)[0]
+    scans = []
+    for c in common.control_conditions(P, rf, rb, False):
+        cd = c["cond"]
+        if cd[0] in ("val", "flag") and c["allowed"] == [False]:
+            for x in common.walk(cd[1]):
+                if x[0] == "call" and isinstance(x[3], str) and roles.is_workspace_fn(P, x[3]) and any(set(ctx.roots(a)) == {DEN} for a in x[4]):
+                    scans.append(x)
+    if len(scans) != 1:
+        return False, "no `scan(storage, denom)? == false` condition guards it"
+    sv = scans[0]
+    S = P.fn(sv[3]) or P.fn(generic_path(sv[3]))
+    di = [i for i, a in enumerate(sv[4]) if set(ctx.roots(a)) == {DEN}][0]
+    if S is None or S.body is None or not re.search(r"-> std::result::Result<bool, ", S.sig or ""):
+        return False, "the scan is not a Result<bool> function"
+    lps = [l for l in common.loops(P, S) if l["is_loop"]]
+    outer = inner = None
+    for l in lps:
+        ads, kind, src = common.iter_chain(l["iter"])
+        ety = S.body.blocks[l["next_bb"]]["term"].get("dest", {}).get("ty", "")
+        if not ads and src[0] == "call" and isinstance(src[3], str) and re.search(r"Map::range$", generic_path(src[3])) and \
+                "|".join(sorted(ctx.roots(src[4][0]))) == ctx.N.PAIRS and "None" in "|".join(sorted(ctx.roots(src[4][2]))) and "None" in "|".join(sorted(ctx.roots(src[4][3]))) and \
+                re.search(r"\(std::vec::Vec<u8>, %s\)" % ctx.N.rx("PairInfoRaw"), ety):
+            outer = l
+    if outer is None:
+        return False, "the scan does not iterate the whole registry (unbounded PAIRS.range, no adaptor)"
+    for l in lps:
+        if l is outer:
+            continue
+        ads, kind, src = common.iter_chain(l["iter"])
+        sr = "|".join(sorted(ctx.roots(src)))
+        if not ads and kind in ("iter", "into_iter") and sr.startswith(outer["item_root"]) and sr.endswith(".asset_infos"):
+            inner = l
+    if inner is None:
+        return False, "the scan does not look at both assets of each pair (plain iteration of asset_infos)"
+    el = inner["item_root"]
+    want_true = {"is_native_token(%s) is [True]" % el, "eq(%s) is [True]" % ", ".join(sorted([el, P_(S, di)]))}
+    seen_true = seen_false = False
+    for (b, i, cls, v) in common.exit_sites(P, S):
+        if cls == "err":
+            continue
+        cs = {c_ for c_ in lemmas.cond_strings(ctx, common.control_conditions(P, S, b)) if not c_.startswith("discr(")}
+        dcs = {c_ for c_ in lemmas.cond_strings(ctx, common.control_conditions(P, S, b)) if c_.startswith("discr(")}
+        val = v[3][0][1] if v[0] == "agg" and str(v[2]).endswith("Result::Ok") and len(v[3]) == 1 else None
+        if val == ("const", "int", 1) and cs == want_true:
+            seen_true = True
+        elif val == ("const", "int", 0) and not cs and dcs == {"discr(%s) in ['None']" % outer["item_root"]}:
+            seen_false = True
+        else:
+            return False, "the scan answers %s under {%s}" % (ctx.show(v, 3), "; ".join(sorted(cs | dcs))[:200])
+    if not (seen_true and seen_false):
+        return False, "the scan lacks the `found => true` or the `exhausted => false` exit"
+    return True, ""
 
 
 def allow_list_reader_strict(ctx, inst):
